@@ -4,7 +4,9 @@ meta.json that records what the change needs to manifest, how it was confirmed
 and which checks report it (from an all-properties run on the in-memory variant)."""
 import json, glob, os, re, shutil, sys
 DST = "/verif/seeded"
-ROUNDS = [("/tmp/seedout", "/tmp/confirm", "/tmp/matrix", 0), ("/tmp/seedout2", "/tmp/confirm2", "/tmp/matrix2", 2)]
+ROUNDS = [("/tmp/seedout", "/tmp/confirm", "/tmp/matrix", 0), ("/tmp/seedout2", "/tmp/confirm2", "/tmp/matrix2", 2), ("/tmp/seedout3", "/tmp/confirm3", "/tmp/matrix3", 4)]
+if len(sys.argv) > 1:  # populate_seeded.py /tmp/seedout3 — only that round
+    ROUNDS = [r for r in ROUNDS if r[0] in sys.argv[1:]]
 WHY = {
  "C04-2": "off-by-one inside a codec primitive's length guard (`>=` vs `>`): value-level; the reader/writer operation sequences are unchanged",
  "C08-1": "shift amount truncated to 64 bits: opcode value semantics, which C08 does not claim (only the cost/table clause)",
@@ -13,6 +15,7 @@ WHY = {
  "C15-2": "slot arithmetic rewritten (difference of absolute slot indices): value-level, stated as not decided",
  "C16-2": "`>` became `>=` in IsMajority: threshold arithmetic, stated as not decided",
  "C17-2": "IsMajority rewritten with threshold (2n+2)/3 and `>=`: threshold arithmetic, stated as not decided",
+ "C17-6": "IsMajority threshold rewritten as `>= (2n+2)/3` (\"at least two thirds\"): threshold arithmetic, stated as not decided; differs from the original only for validator counts divisible by 3",
  "C22-1": "a de-duplication set in the orphan promotion queue: the maps are still written by the same functions under the lock; which orphans get re-examined is value-level",
  "C29-1": "charset lookup replaced by a reverse table whose unused entries are 0: the rule reports 'undecided' (exit 2, machinery failure) because a table's contents are values — not counted as detected",
  "C30-2": "validation rejects the empty proof: completeness for the empty list is value-level, stated as not decided",
